@@ -99,19 +99,26 @@ def explore_instance(run, seconds=600, trace_functions=True, max_fail=40):
     samples = []
     ok = 0
     nfail = 0
+    per_hint = {}
+
+    def keep(r):
+        k = (r.get("kind"), r.get("sig_hint", ""))
+        per_hint[k] = per_hint.get(k, 0) + 1
+        return per_hint[k] <= 3 and len(fails) < 400
+
     for r in results:
         if r is None:
             ok += 1
         elif isinstance(r, Fail):
             nfail += 1
-            if len(fails) < max_fail:
+            if keep(r):
                 fails.append(dict(r))
         elif isinstance(r, list):
             fs = [x for x in r if isinstance(x, Fail)]
             if fs:
                 nfail += 1
                 for x in fs:
-                    if len(fails) < max_fail:
+                    if keep(x):
                         fails.append(dict(x))
             else:
                 ok += 1
